@@ -63,13 +63,18 @@ func useTransaction(ctx context.Context, engine *Engine, lock bool, fn func(*Tra
 	// ensure context
 	ctx = ensureContext(ctx)
 
-	// use active transaction from session in context
+	// use active transaction from session in context; the operation excludes
+	// a concurrent commit, abort or end of that transaction, which would
+	// otherwise leave it writing into a transaction that is already finished
 	sess, ok := ctx.Value(sessionKey{}).(*Session)
 	if ok {
+		sess.ops.RLock()
 		txn := sess.Transaction()
 		if txn != nil {
+			defer sess.ops.RUnlock()
 			return fn(txn)
 		}
+		sess.ops.RUnlock()
 	}
 
 	// create transaction
